@@ -467,6 +467,8 @@ def check_C13(ctx):
         for x in st["samples"][:1]:
             ctx.sample({"kind": "program whose setup/dispose was recorded", "prog": x})
         validate_blocks(ctx, "ShredTrace", out, ["InvC13", "InvStruct"], classify=classify_block)
+    # AsyncDispatcher::setup (also while a dispatch is in flight: it must wait and then reach everything)
+    async_stage(ctx, ["InvC13", "InvC15"], 40 if ctx.quick() else 400, extra=["--setuplog", "--ptl", 0.15])
     # the library's own SystemData setup code (Read/Write/Option/Expect, tuples, derive): contributed stage
     try:
         import props_sysdata
